@@ -286,12 +286,21 @@ def run(chk, replay=None):
     Bld = c06.builders()
     for fmt in sorted(Bld):
         dec = datafmt.decoder(fmt)
-        for _ in range(4 if chk.quick else 12):
+        for _ in range(6 if chk.quick else 12):
             b0 = datafmt.GEN[fmt](drng, 1) if fmt.startswith("ModeSense") else datafmt.GEN[fmt](drng)
             try:
                 d = dec(bytearray(b0))
             except Exception:
                 continue
+            # the same argument objects handed to the builder twice (the caller keeps what it parsed): same bytes
+            try:
+                live = copy.deepcopy(d)
+                if bytes(Bld[fmt].marshall_datain(live)) != bytes(Bld[fmt].marshall_datain(live)):
+                    chk.violation({"clause": "SharedArguments", "cls": fmt, "other": "", "field": "",
+                                   "detail": {}, "what": "marshall_datain twice from the same dictionary objects"},
+                                  dedup=("SharedArguments", fmt))
+            except Exception:
+                pass
             for cont, key in list(leaves(d)):
                 old = cont[key]
                 for v in vals:
